@@ -131,6 +131,11 @@ class UnitBuild:
             cn = ctx.fn_cname(t)
             ctx.fn_mode[cn] = sel.get('mode', ctx.call_mode(t))
             ctx.fn_queue.append(t)
+        if '@target' in cfg.get('contracts', {}):
+            # the spec may key the target's contract by '@target' (overload suffixes depend on what the witness instantiates)
+            cfg = self.cfg = dict(cfg, contracts=dict(cfg['contracts']))
+            cfg['contracts'][cname] = cfg['contracts'].pop('@target')
+            ctx.cfg = cfg
         ctx.lower_all()
         # constants the contracts mention although the lowered bodies do not
         for spec in cfg.get('need_consts', []):
